@@ -44,3 +44,48 @@ def logfile_refused(path, max_size, old_files, when, interval, encoding, delay):
             return max_size != 0
         return max_size == 0
     return False
+
+
+from pyvc.specapi import recursive
+
+
+def without_first(lst, x):
+    """lst with the first occurrence of x removed (lst itself when x does not occur)."""
+    if x in lst:
+        return lst[:lst.index(x)] + lst[lst.index(x) + 1:]
+    return lst
+
+
+@recursive(['Seq[Ref[WeakRef]]', 'int'], 'Seq[Ref[LogHandler]]')
+def live_handlers(snap, i):
+    """The handlers still alive among the registered weak references snap[i:], in order."""
+    if i >= len(snap):
+        return []
+    if snap[i].target is None:
+        return live_handlers(snap, i + 1)
+    return [val(snap[i].target)] + live_handlers(snap, i + 1)
+
+
+@recursive(['Seq[Ref[WeakRef]]', 'int'], 'Seq[Ref[WeakRef]]')
+def live_refs(snap, i):
+    """The weak references among snap[i:] whose handler is still alive, in order."""
+    if i >= len(snap):
+        return []
+    if snap[i].target is None:
+        return live_refs(snap, i + 1)
+    return [snap[i]] + live_refs(snap, i + 1)
+
+
+def add_handler(hs, h):
+    """logging.Logger.addHandler: appended unless already present."""
+    if h in hs:
+        return hs
+    return hs + [h]
+
+
+@recursive(['Seq[Opaque[PyVal]]', 'Seq[Opaque[PyVal]]'], 'Seq[Opaque[PyVal]]')
+def add_handlers(hs, new):
+    """hs after addHandler of each element of new, in order."""
+    if len(new) == 0:
+        return hs
+    return add_handler(add_handlers(hs, new[:-1]), new[-1])
